@@ -8,6 +8,8 @@ Oracle (real code only): gradient vs. 4th-order central differences of the value
 pulled back analytically through the generated model functions); E(x1)-E(x2) vs. scipy.stats log-pdf differences;
 VariableCovarianceGaussianEnergy: full-Fisher metric vs. the exact data expectation (Gauss–Hermite) of JᴴJ.
 """
+import contextlib
+import io
 import struct
 
 import numpy as np
@@ -144,6 +146,12 @@ def expected_pullback(case):
 
 
 def oracle(case):
+    # (MatrixProductOperator.apply prints to stdout)
+    with contextlib.redirect_stdout(io.StringIO()):
+        return _oracle(case)
+
+
+def _oracle(case):
     o, err = _measure(case)
     if err is not None:
         return (f"energy raised on a valid input: {err}", sig(case, "error", error=err.split(":")[0]))
@@ -277,7 +285,7 @@ def run_cases(ctx, cases, do_oracle=True):
             ctx.compare(c, {"agree": True}, {"agree": not bad, "detail": bad} if bad else {"agree": True},
                         note="C11 Float model vs Linearization(want_metric=True) through the real energy")
         if do_oracle:
-            r = oracle(c)
+            r = _oracle(c)
             if r is not None:
                 ctx.counterexample(c, *r)
 
@@ -312,8 +320,9 @@ def run(ctx):
     for _ in range(ctx.n(60, 700)):
         cases.append(G.gen_case(ctx.rng, small=ctx.quick))
     B = 100
-    for i in range(0, len(cases), B):
-        run_cases(ctx, cases[i:i + B])
+    with contextlib.redirect_stdout(io.StringIO()):
+        for i in range(0, len(cases), B):
+            run_cases(ctx, cases[i:i + B])
 
 
 def search(ctx):
